@@ -8,14 +8,7 @@ import hir as H
 ERASE = tuple(H.strip_generics(e) for e in H.ERASE_METHODS)
 
 
-def norm_path(p):
-    p = H.strip_generics(p)
-    for pre in ('std::prelude::v1::', 'core::prelude::v1::'):
-        if p.startswith(pre):
-            p = p[len(pre):]
-    if p.startswith('core::'):
-        p = 'std::' + p[len('core::'):]
-    return p
+norm_path = H.norm_path
 
 
 def is_erased_call(path):
